@@ -2459,7 +2459,17 @@ def _unravel_key_to_tuple(key):
         return (key,)
     if not isinstance(key, tuple):
         return ()
-    return tuple(subk for k in key for subk in _unravel_key_to_tuple(k))
+    newkey = []
+    for subkey in key:
+        if isinstance(subkey, str):
+            newkey.append(subkey)
+        else:
+            _key = _unravel_key_to_tuple(subkey)
+            if len(_key) == 0:
+                # same as the C++ implementation: an invalid member invalidates the key
+                return ()
+            newkey.extend(_key)
+    return tuple(newkey)
 
 
 def unravel_key(key):
@@ -2479,9 +2489,16 @@ def unravel_key(key):
     if isinstance(key, str):
         return key
     if isinstance(key, tuple):
-        if len(key) == 1:
-            return unravel_key(key[0])
-        return tuple(unravel_key(_key) for _key in key)
+        # same as the C++ implementation: nested tuples are flattened
+        newkey = []
+        for subkey in key:
+            if isinstance(subkey, str):
+                newkey.append(subkey)
+            else:
+                newkey.extend(_unravel_key_to_tuple(subkey))
+        if len(newkey) == 1:
+            return newkey[0]
+        return tuple(newkey)
     raise ValueError("the key must be a str or a tuple of str")
 
 
